@@ -9,7 +9,7 @@ from __future__ import annotations
 import itertools
 import random
 
-from .. import mslab, msmodel as ms
+from .. import mslab, msmodel as ms, textgen
 from ..core import Result, split
 
 LEVEL = "exploration"
@@ -202,13 +202,19 @@ def random_case(rng):
         cn = "atom"
         if rng.random() < 0.4:
             par = "".join(rng.choice(TEXTCH) for _ in range(rng.randint(0, 6)))
+            if rng.random() < 0.3:
+                par = textgen.text(rng, 0, 6)
+                if not ms.can_quote(par.encode("utf-8")):
+                    par = "p"
             code += b" " + ms.quoted(par.encode("utf-8"))
             cn = "with-string-param"
     text, how, tn = None, None, "none"
     if rng.random() < 0.8:
         t = "".join(rng.choice(TEXTCH + ["\r\n"]) for _ in range(rng.randint(0, 10)))
+        if rng.random() < 0.3:
+            t = textgen.text(rng, 0, 10)  # W-TEXT: broad character classes
         text = t.encode("utf-8")
-        how = "literal" if ("\r\n" in t or rng.random() < 0.4) else "quoted"
+        how = "literal" if (not ms.can_quote(text) or rng.random() < 0.4) else "quoted"
         tn = how
     return (op, st, cn, code, tn, text, how)
 
